@@ -235,9 +235,9 @@ func (h *harness) mangle(p *simnet.Pipe, b []byte) []byte {
 			case 2: // the tail is lost
 				out = append([]byte(nil), b[:1+t.Choose("fault", len(b)-1)]...)
 				w.Fault("truncate-block")
-			default: // a pause longer than T1 inside the block (only where the late tail holds no ENQ)
+			default: // a pause longer than T1 inside the block — only where the late tail holds no byte that reads as a handshake character (ENQ/EOT/ACK/NAK): such a tail arrives as stray characters on the line and a stray EOT or ACK is indistinguishable from a real one
 				cut := 1 + t.Choose("fault", len(b)-1)
-				if bytes.IndexByte(b[cut:], enq) < 0 {
+				if !bytes.ContainsAny(b[cut:], "\x04\x05\x06\x15") {
 					h.inBlockFault = true
 					h.cutAt = cut
 					h.quietUntil = w.Now() + h.sc.T1 + 4*h.sc.T2
